@@ -310,7 +310,7 @@ static void c10_run(int tier, long cfg) { (void) tier; c10_build(); c10_body(&c1
 /* ================================================================= C11 */
 
 static const int limits[] = { 32, 64, 256, 1024, 2048 };
-#define NTWO 24
+#define NTWO 30
 #define NRLF 2
 static void c11_two_starts(long k);
 static void c11_rlimit_fault(long k);
@@ -403,7 +403,7 @@ static void c11_two_starts(long k)
   /* k >= 9: the second child is started in fork mode (no exec follows: close-on-exec protects nothing there) */
   int fork2 = k >= 9;
   if (fork2) k -= 9;
-  int L1 = l1s[k % 3], L2 = l2s[k % 3], rc = (int) (k / 3) % (fork2 ? 5 : 3);
+  int L1 = l1s[k % 3], L2 = l2s[k % 3], rc = (int) (k / 3) % (fork2 ? 7 : 3);
   memset(&vk_cfg, 0, sizeof vk_cfg);
   vk_cfg.real_exec = 1;
   vk_cfg.vlimit = L1;
@@ -419,6 +419,9 @@ static void c11_two_starts(long k)
   /* (fork mode only) stderr taken from another standard descriptor: the forked side makes a private copy of it first, which must be gone again */
   if (rc == 3) { o.redirect.out.type = REPROC_REDIRECT_PARENT; o.redirect.err.type = REPROC_REDIRECT_STDOUT; }
   if (rc == 4) { o.redirect.err.type = REPROC_REDIRECT_HANDLE; o.redirect.err.handle = 1; }
+  /* (fork mode only) targets the library opens itself: what it opened for the child must not stay open on its own side of the fork */
+  if (rc == 5) o.redirect.path = "c11-fork-path";
+  if (rc == 6) { o.redirect.in.path = "c11-fork-in"; int t = open("c11-fork-in", O_WRONLY | O_CREAT, 0644); close(t); o.redirect.out.path = "c11-fork-out"; }
   vk_script("");
   vk_script("");
   reproc_t *p1 = hx_new();
